@@ -2,7 +2,7 @@
    PARTIAL (frequency): the distribution claim is proved as "the value produced is the drawn pattern"; the uniformity of the
    draw and the solver's choice when a pattern is infeasible are runtime behaviours observed by the check's histograms. *)
 From Coq Require Import ZArith List Bool.
-From PV Require Import Common.Bits Rand.BV Rand.Order Rand.OrderProofs Rand.Swizzle Rand.SwizzleProofs.
+From PV Require Import Common.Bits Rand.BV Rand.Order Rand.OrderProofs Rand.OrderTotal Rand.Swizzle Rand.SwizzleProofs.
 Import ListNotations.
 
 (* solve_order(before, after) makes every after-field depend on every before-field, and keeps earlier declarations *)
@@ -26,6 +26,25 @@ Print Assumptions C20_groups_disjoint.
 Theorem C20_groups_within_randset : forall d fields gs x, rand_order d fields = Some gs -> In x (concat gs) -> In x fields.
 Proof. exact rand_order_subset. Qed.
 Print Assumptions C20_groups_within_randset.
+(* no ordered field is dropped by the restriction to the rand set: the after-field of a declared pair always gets a group,
+   and so does the before-field when it belongs to the rand set; hence the unconditional form of C20_order_respects *)
+Theorem C20_ordered_fields_kept : forall d fields gs a b,
+  rand_order d fields = Some gs -> In b (deps_of d a) -> In a fields ->
+  In a (concat gs) /\ (In b fields -> In b (concat gs)).
+Proof. exact rand_order_covers. Qed.
+Print Assumptions C20_ordered_fields_kept.
+Theorem C20_pair_separated : forall d fields gs a b,
+  NoDup fields -> rand_order d fields = Some gs -> In b (deps_of d a) -> In a fields -> In b fields ->
+  exists i j, group_index gs a 0 = Some i /\ group_index gs b 0 = Some j /\ (j < i)%nat.
+Proof. exact rand_order_separates. Qed.
+Print Assumptions C20_pair_separated.
+
+(* the ordering is never lost: whenever the declared pairs are acyclic (some rank decreases along every declared pair) and
+   an after-field belongs to the rand set, the level computation succeeds - it runs out of neither ready fields nor fuel *)
+Theorem C20_acyclic_order_total : forall d fields,
+  acyclic d -> filter (fun p => mem (fst p) fields) d <> [] -> exists gs, rand_order d fields = Some gs.
+Proof. exact rand_order_total. Qed.
+Print Assumptions C20_acyclic_order_total.
 
 Open Scope Z_scope.
 (* the first-solved field: when the drawn pattern is a feasible value v of its range, every slice is kept (it is consistent with
